@@ -21,6 +21,17 @@ CHECKS = {
         technique="explicit-state BFS over real executions (stateless replay, deviation-bounded, fingerprint de-duplication)"),
 }
 
+CHECKS["C01"] = dict(
+    level="model_checking", design="DESIGN.md §6 C01",
+    text="All interleavings (depth 8/1 deviation quick, 10/2 thorough) of send calls (6 pairwise distinct messages, three retry "
+         "policies, each call its own task), connect accept/refuse, peer EOF, pause/resume of the transport, timer ticks and "
+         "0.5 s clock advances on the real AirTouchSocket; after every action the bytes of every connection are split by the "
+         "reference framer and compared with a FIFO reference model (nothing unsubmitted, exactly once, acceptance order, "
+         "within lifetime, written at max(accept, connect), packet ids consecutive mod 256, no residue); liveness judged at "
+         "every quiescent state. Plus linear families: k=1..10 queued during an outage, 300 sends with an outage around the "
+         "packet-id wrap.",
+    technique="explicit-state BFS over real executions against a FIFO reference model")
+
 NOT_YET = {}
 
 
